@@ -504,6 +504,7 @@ pub fn run(args: &Args) {
             return;
         }
         if case.trim() == "deadline" { super::c03::deadline::replay(); return; }
+        if case.starts_with("pc ") { super::c03::pcfp::replay(case); return; }
         let sc = Script::parse(case);
         match rt.block_on(run_script(&sc)) {
             Some(o) => { for (i, l) in o.lines { println!("ops: {i}\nimpl: {l}"); } for (s, d) in o.fails { println!("ORACLE-FAIL {s} {d}"); } }
@@ -532,6 +533,8 @@ pub fn run(args: &Args) {
     }
     fp_cases(&mut run, &mut rng, if args.tier_thorough { 50000 } else { 600 });
     sdpfp_cases(&mut run, &mut rng, if args.tier_thorough { 20000 } else { 500 });
+    drop(rt);
+    super::c03::pcfp::run_cases(&mut run, if args.tier_thorough { 5 } else { 1 });
     super::c03::deadline::record(&mut run, deadline);
     run.finish();
 }
